@@ -224,35 +224,7 @@ def wrap(base, bits):
 POS = [("i", "Int"), ("ni", "Int!"), ("li", "[Int]"), ("lli", "[[Int]]"), ("s", "String"), ("lo", "[Inp!]")]
 
 
-def allowed(vt, pt, has_default, pos_default):
-    """§5.8.5 AreTypesCompatible + IsVariableUsageAllowed (June 2018)"""
-    def parse(t):
-        if t.endswith("!"):
-            return ("NN", parse(t[:-1]))
-        if t.startswith("["):
-            return ("LIST", parse(t[1:-1]))
-        return t
-
-    def compat(v, l):
-        if isinstance(l, tuple) and l[0] == "NN":
-            if not (isinstance(v, tuple) and v[0] == "NN"):
-                return False
-            return compat(v[1], l[1])
-        if isinstance(v, tuple) and v[0] == "NN":
-            return compat(v[1], l)
-        if isinstance(l, tuple) and l[0] == "LIST":
-            if not (isinstance(v, tuple) and v[0] == "LIST"):
-                return False
-            return compat(v[1], l[1])
-        if isinstance(v, tuple):
-            return False
-        return v == l
-    v, l = parse(vt), parse(pt)
-    if isinstance(l, tuple) and l[0] == "NN" and not (isinstance(v, tuple) and v[0] == "NN"):
-        if not has_default and not pos_default:
-            return False
-        return compat(v, l[1])
-    return compat(v, l)
+from vf.ref.validation import allowed  # noqa: E402
 
 
 @obligation(tier="quick", timeout=240, shards=[{"base": b} for b in ("Int", "String", "Inp")],
